@@ -298,14 +298,23 @@ pub fn run<W: Write>(opts: &Opts, out: &mut W) {
                 // adversarial size fields: a moov that declares far more than the limit (and than the input holds)
                 let l = big(&mut r);
                 push_sized(&mut s, b"mdat", l, &mut media);
-                let declared = match r.below(4) {
+                let declared = match r.below(5) {
                     0 => max + 1,
                     1 => 1u64 << 40,
                     2 => u64::MAX - 16,
+                    3 => 0,
                     _ => (1u64 << 32) - 9,
                 };
-                s.push(&header(b"moov", None, declared, if declared + 8 > u32::MAX as u64 { Enc::S64 } else { Enc::S32 }));
-                s.push(&moov_p);
+                if declared == 0 {
+                    // an until-EOF moov whose extent (the rest of the input) is above the limit
+                    s.push(&header(b"moov", None, 0, Enc::Eof));
+                    s.push(&moov_p);
+                    let rest = if opts.tier_thorough { 1u64 << (20 + r.below(10)) } else { 1u64 << (20 + r.below(6)) };
+                    s.push_zeros(max + rest);
+                } else {
+                    s.push(&header(b"moov", None, declared, if declared + 8 > u32::MAX as u64 { Enc::S64 } else { Enc::S32 }));
+                    s.push(&moov_p);
+                }
             }
             _ => {
                 // until-EOF media after the moov, or an unknown box (rejected) after huge media
